@@ -117,6 +117,49 @@ theorem consistent_after_history (ops : List RegOp) :
     | none => simpa using h
     | some r' => simpa using register_preserves r r' _ _ _ h hr
 
+/-- One registration step never renames a level that already has a name. -/
+theorem step_keeps_names (r : Registry) (hc : Consistent r) (op : RegOp) (l : Int) (s : Bytes)
+    (h : r.levelToString.lookup l = some s) : (regStep r op).levelToString.lookup l = some s := by
+  unfold regStep
+  cases hr : r.register op.v op.title op.pack with
+  | none => simpa using h
+  | some r' =>
+    have hl : l ∈ r.allLevels := hc.2 l s h
+    unfold Registry.register at hr
+    split at hr
+    · simp at hr
+    rename_i hv
+    split at hr
+    · simp at hr
+    simp only [Option.some.injEq] at hr; subst hr
+    have hne : l ≠ op.v := by
+      intro e; subst e; exact hv (by simpa using hl)
+    simpa [lookup_assocSet_ne _ _ _ _ hne] using h
+
+/-- (4b) Names persist over every history: a level that has a name — a built-in one or one
+    registered earlier — keeps exactly that name whatever is registered (or refused) later; no
+    later registration can rename it. -/
+theorem names_persist (r : Registry) (hc : Consistent r) (ops : List RegOp) (l : Int) (s : Bytes)
+    (h : r.levelToString.lookup l = some s) : (ops.foldl regStep r).levelToString.lookup l = some s := by
+  induction ops generalizing r with
+  | nil => simpa using h
+  | cons op ops ih =>
+    have hc' : Consistent (regStep r op) := by
+      unfold regStep
+      cases hr : r.register op.v op.title op.pack with
+      | none => simpa using hc
+      | some r' => simpa using register_preserves r r' _ _ _ hc hr
+    simpa using ih (regStep r op) hc' (step_keeps_names r hc op l s h)
+
+/-- … in particular the built-in names (the regenerated table) survive every history. -/
+theorem builtin_names_persist (ops : List RegOp) (l : Int) (s : Bytes)
+    (h : Bridge.genRegistry.levelToString.lookup l = some s) :
+    (ops.foldl regStep Bridge.genRegistry).levelToString.lookup l = some s :=
+  names_persist _ builtin_consistent ops l s h
+
+-- non-vacuity: the built-in table names the Warn level
+example : (Bridge.genRegistry.levelToString.lookup Lv.warn).isSome = true := by decide
+
 /-- (5) Round trips, for every built-in or registered level of a consistent registry: the printed
     name parses back, the text form unmarshals back, the JSON form unmarshals back (for any
     quoting function `q` with left inverse `uq`; C05 proves that of the encoder's quoting). -/
